@@ -135,3 +135,77 @@ Example c01_eqsort_needed :
   exists s, run [] (init 0) cs = Ok s /\
     CC (unions_of cs) (TI 1) (TI 2) /\ eval s (TI 1) = Some (VInt 1) /\ eval s (TI 2) = Some (VInt 2).
 Proof. exact CC.c01_eqsort_needed. Qed.
+
+(* ================================================================== *)
+(** * The rule interpreter ([Egg/Rules.v]) is a term-level history
+
+    [prog_ctor_okb n sg ks] (executable): every table of [sg] is a constructor ([MUnionId]); every
+    top-level action and every rule head is [AExpr] or [AUnion] over function symbols [< n]
+    (rule bodies are unrestricted). [ptrace] = the states after each command up to the first
+    error (what [prun] observes); [pfinal] = the state in which the program ends, returned
+    together with the error if there is one; [visited] = all of these. *)
+Require Import Verif.Egg.Rules Verif.Egg.RulesProofs.
+
+(** [prun] observes exactly the states of [ptrace] *)
+Theorem c01_prun_observes_ptrace : forall sg probes iprobes ks ps,
+  prun sg ps ks probes iprobes = map (fun ps' => observe (fst ps') probes iprobes) (ptrace sg ps ks).
+Proof. exact RulesProofs.prun_ptrace. Qed.
+Print Assumptions c01_prun_observes_ptrace.
+
+(** Every state a constructor-fragment program passes through — after each command, and the
+    state at the point where an ungrounded action / panic stops it — is the result of a
+    well-formed term-level history run from the empty database. *)
+Theorem c01_rules_history : forall n sg ks, prog_ctor_okb n sg ks = true ->
+  Forall (fun ps => exists cs, cmds_okb n cs = true /\ run sg (init n) cs = Ok (fst ps))
+         (ptrace sg (init n, []) ks) /\
+  (exists cs, cmds_okb n cs = true /\ run sg (init n) cs = Ok (fst (fst (pfinal sg (init n, []) ks)))).
+Proof. exact RulesProofs.rules_history. Qed.
+Print Assumptions c01_rules_history.
+
+(** ... and the histories are nested: each program command (an action = one [exec]; a [(run n)] =
+    iterations, each an [xrun] of issued commands) extends the previous state by a well-formed
+    list of term-level commands. *)
+Theorem c01_rules_stepwise : forall n sg ks, prog_ctor_okb n sg ks = true ->
+  chain (fun ps ps' => exists cs, cmds_okb n cs = true /\ run sg (fst ps) cs = Ok (fst ps'))
+        (init n, []) (ptrace sg (init n, []) ks).
+Proof. exact RulesProofs.rules_stepwise. Qed.
+Print Assumptions c01_rules_stepwise.
+
+(** such a program can only stop with a user-visible error: 1 = panic action, 3 = ungrounded
+    action; never a merge conflict, never the model's own fuel/panic code *)
+Theorem c01_rules_errors : forall n sg ks, prog_ctor_okb n sg ks = true ->
+  let e := snd (pfinal sg (init n, []) ks) in e = None \/ e = Some 1 \/ e = Some 3.
+Proof. exact RulesProofs.rules_errors. Qed.
+Print Assumptions c01_rules_errors.
+
+(** C01 after every command of every constructor-fragment program: in every visited state two
+    represented ground terms have the same value iff they are in the congruence closure of the
+    unions of the history that produced the state. *)
+Theorem c01_rules_iff : forall n sg ks s, prog_ctor_okb n sg ks = true -> visited sg n ks s ->
+  exists cs, cmds_okb n cs = true /\ run sg (init n) cs = Ok s /\
+    forall t1 t2 v1 v2, eval s t1 = Some v1 -> eval s t2 = Some v2 ->
+      (v1 = v2 <-> CC (unions_of cs) t1 t2).
+Proof. exact RulesProofs.rules_iff_visited. Qed.
+Print Assumptions c01_rules_iff.
+
+Theorem c01_rules_sound : forall n sg ks s, prog_ctor_okb n sg ks = true -> visited sg n ks s ->
+  exists cs, cmds_okb n cs = true /\ run sg (init n) cs = Ok s /\
+    forall t1 t2 v, eval s t1 = Some v -> eval s t2 = Some v -> CC (unions_of cs) t1 t2.
+Proof. exact RulesProofs.rules_sound_visited. Qed.
+Print Assumptions c01_rules_sound.
+
+Theorem c01_rules_complete : forall n sg ks s, prog_ctor_okb n sg ks = true -> visited sg n ks s ->
+  exists cs, cmds_okb n cs = true /\ run sg (init n) cs = Ok s /\
+    forall t1 t2 v1 v2, CC (unions_of cs) t1 t2 -> eval s t1 = Some v1 -> eval s t2 = Some v2 -> v1 = v2.
+Proof. exact RulesProofs.rules_complete_visited. Qed.
+Print Assumptions c01_rules_complete.
+
+(** non-vacuity: a program with a rule that fires, a union, and an ungrounded action that stops
+    it (5 states observed, error 3, final database as shown) *)
+Example c01_rules_example :
+  prog_ctor_okb 3 REx.sg1 REx.ks1 = true /\
+  length (ptrace REx.sg1 (init 3, []) REx.ks1) = 5 /\
+  snd (pfinal REx.sg1 (init 3, []) REx.ks1) = Some 3 /\
+  REx.dump (fst (pfinal REx.sg1 (init 3, []) REx.ks1))
+  = ([0; 0; 0; 2], [[([], VId 0, false)]; [([], VId 0, false)]; [([VId 0], VId 0, false)]]).
+Proof. exact RulesProofs.rex_ctor. Qed.
